@@ -19,7 +19,8 @@ void Hashmaster::getFileHash(buffer64 *buffer, u8_t *hashres, const std::functio
           __CPROVER_loop_invariant(WV_TAG_OF(this) == __CPROVER_loop_entry(WV_TAG_OF(this)) && WV_TAG_OF(buffer) == WV_TAG_filebuffer64)
           __CPROVER_loop_invariant(WV_FB(buffer)->fp == __CPROVER_loop_entry(WV_FB(buffer)->fp) && WV_FB_OK(WV_FB(buffer)) && !WV_FB_DONE(WV_FB(buffer)))
           __CPROVER_loop_invariant(WV_FB_LEFT(WV_FB(buffer)) <= wv_fb_left0 && WV_FB_LEFT(WV_FB(buffer)) + 64 * (wv_hl_n - __CPROVER_loop_entry(wv_hl_n)) == wv_fb_left0)
-          __CPROVER_loop_invariant(wv_hl_n >= __CPROVER_loop_entry(wv_hl_n) && this->totalsize == 512 * (wv_hl_n - __CPROVER_loop_entry(wv_hl_n)))
+          __CPROVER_loop_invariant(wv_hl_n >= __CPROVER_loop_entry(wv_hl_n) && wv_hl_n - __CPROVER_loop_entry(wv_hl_n) <= (wv_fb_left0 >> 6) &&
+                                   this->totalsize == 512 * (wv_hl_n - __CPROVER_loop_entry(wv_hl_n)))
           __CPROVER_decreases(WV_FB_LEFT(WV_FB(buffer))))
   {
     u64_t sum = buffer->read_buffer64(hashblock, printload);
